@@ -317,8 +317,12 @@ def run(chk: Check, eng: Engine) -> None:
     for f in eng.ix.all_functions:
         if f.module != "fandango.cli.utils":
             continue
+        # names that range over a literal collection containing "random_seed" (`for name in ("population_size", ..., "random_seed"): copy(args, settings, name)`)
+        seed_names = {lp.target.id for lp in walk_local(f.node) if isinstance(lp, (ast.For, ast.comprehension)) and isinstance(lp.target, ast.Name)
+                      and isinstance(lp.iter, (ast.Tuple, ast.List, ast.Set)) and any(isinstance(e_, ast.Constant) and e_.value == "random_seed" for e_ in lp.iter.elts)}
         for c in walk_local(f.node):
-            if isinstance(c, ast.Call) and any(isinstance(a, ast.Constant) and a.value == "random_seed" for a in c.args) and isinstance(c.func, ast.Name):
+            if isinstance(c, ast.Call) and isinstance(c.func, ast.Name) and any((isinstance(a, ast.Constant) and a.value == "random_seed") or (isinstance(a, ast.Name) and a.id in seed_names)
+                                                                              for a in c.args):
                 r = eng.ix.resolve_name(cli_mod, c.func.id)
                 if isinstance(r, FuncInfo) and r not in copiers:
                     copiers.append(r)
@@ -522,6 +526,8 @@ MUTANTS += [
       "        failing_trees = list(\n            set(\n                itertools.chain.from_iterable(\n                    fitness.failing_trees for fitness in fitness_values\n                )\n            )\n        )\n", "R17-c"),
 ]
 TWINS = [
+    M("twin-cli-settings-copied-in-a-loop", "src/fandango/cli/utils.py", "    _copy_setting(args, settings, \"best_effort\")\n    _copy_setting(args, settings, \"random_seed\")\n    _copy_setting(args, settings, \"max_repetition_rate\")\n",
+      "    for setting_name in (\"best_effort\", \"random_seed\", \"max_repetition_rate\"):\n        _copy_setting(args, settings, setting_name)\n", None),
     M("twin-cli-copy-with-local", "src/fandango/cli/utils.py", "    if hasattr(args, args_name) and getattr(args, args_name) is not None:\n        settings[name] = getattr(args, args_name)\n",
       "    value = getattr(args, args_name, None)\n    if value is not None:\n        settings[name] = value\n", None),
     M("twin-log-more-time", _ALG, "        LOGGER.info(f\"Time taken: {(time.time() - start_time):.2f} seconds\")\n\n        return solutions", "        LOGGER.info(f\"Time taken: {(time.time() - start_time):.3f} seconds\")\n\n        return solutions", None),
